@@ -498,6 +498,13 @@ func skStructure(sl *skiplist.Skiplist, dist []int64, soft int64, nodeCount int6
 			}
 		}
 	}
+	var mem int64
+	for _, e := range l0 {
+		mem += int64(sl.Size(e.n))
+	}
+	if sl.MemoryInUse() != mem {
+		return fmt.Sprintf("MemoryInUse()=%d, the nodes of the walk account for %d bytes", sl.MemoryInUse(), mem), "c14-stats"
+	}
 	if int64(len(l0)) != nodeCount {
 		return fmt.Sprintf("node count statistic %d, walk finds %d nodes", nodeCount, len(l0)), "c14-stats"
 	}
